@@ -2370,6 +2370,9 @@ class QuicConnection:
         """
         if delivery == QuicDeliveryState.ACKED:
             space.ack_queue.subtract(0, highest_acked + 1)
+            if not len(space.ack_queue):
+                # nothing is left to acknowledge, disarm the ACK timer
+                space.ack_at = None
 
     def _on_connection_limit_delivery(
         self, delivery: QuicDeliveryState, limit: Limit
